@@ -155,6 +155,40 @@ def _formula(t, prog, depth):
             return f_or([_formula(args[0], prog, depth), _formula(args[1], prog, depth)])
         if n in _ID_CALLS and len(args) == 1:
             return _formula(args[0], prog, depth)
+        if n in ("Iterator::any", "Iterator::all") and len(args) == 2 and depth > 0:
+            # `[a, b, c].iter().any(|p| test(p))` over a written-out array: the disjunction (`all`: conjunction) of the tests
+            src = args[0]
+            while src.op in ("ref", "deref") or (src.op == "call" and _name(src) in ("IntoIterator::into_iter", "slice::<impl [T]>::iter", "Iterator::copied", "Iterator::cloned") and len(src.a[1]) == 1):
+                src = src.a[0] if src.op in ("ref", "deref") else src.a[1][0]
+            if src.op == "agg" and src.a[0][0] == "array" and 0 < len(src.a[1]) <= 16:
+                from .terms import mk_ref
+
+                parts = []
+                for e in src.a[1]:
+                    body = apply_closure(prog, args[1], [mk_ref(e)])
+                    if body is None:
+                        parts = None
+                        break
+                    from .terms import subst as _subst
+
+                    parts.append(_formula(_subst(body, {}), prog, depth - 1))
+                if parts is not None:
+                    return f_or(parts) if n.endswith("any") else f_and(parts)
+        if n == "Iterator::fold" and len(args) == 3 and depth > 0:
+            # `[f1, f2].into_iter().fold(f0, |acc, f| acc & f)`: the conjunction (`|`: the disjunction) of the flags
+            src = args[0]
+            while src.op in ("ref", "deref") or (src.op == "call" and _name(src) in ("IntoIterator::into_iter", "slice::<impl [T]>::iter", "Iterator::copied", "Iterator::cloned") and len(src.a[1]) == 1):
+                src = src.a[0] if src.op in ("ref", "deref") else src.a[1][0]
+            body = apply_closure(prog, args[2], [])
+            if src.op == "agg" and src.a[0][0] == "array" and body is not None and body.op == "call" and _name(body) in ("BitAnd::bitand", "BitOr::bitor") and len(body.a[1]) == 2:
+                ps = []
+                for x in body.a[1]:
+                    while x.op in ("ref", "deref"):
+                        x = x.a[0]
+                    ps.append(x.a[0] if x.op == "param" else None)
+                if sorted(p_ for p_ in ps if p_ is not None) == [2, 3]:
+                    parts = [_formula(args[1], prog, depth - 1)] + [_formula(x, prog, depth - 1) for x in src.a[1]]
+                    return f_and(parts) if _name(body) == "BitAnd::bitand" else f_or(parts)
         if n in ("Option::<T>::is_some_and", "Option::<T>::is_none_or") and len(args) == 2 and depth > 0:
             body = apply_closure(prog, args[1], [T("field", T("downcast", _unref(args[0]), "Some"), "0")])
             if body is not None:
@@ -345,6 +379,17 @@ def _edge_literals(ev, src, val, prog):
             alts = success_alternatives(ds.a[0].a[1][0], prog)
             if len(alts) == 1:
                 lits |= alts[0]
+        # `cond.then_some(v)` / `cond.then(f)`: Some exactly when cond holds
+        if ds.op == "discr":
+            inner = ds.a[0]
+            while inner.op in ("ref", "deref"):
+                inner = inner.a[0]
+            if inner.op == "call" and _name(inner) in ("bool::<impl bool>::then_some", "bool::<impl bool>::then", "core::bool::<impl bool>::then_some", "core::bool::<impl bool>::then") and inner.a[1]:
+                arms_ = tuple(v for v, _ in tj["arms"])
+                is_some = (val == 1) if val != "otherwise" else (arms_ == (0,))
+                is_none = (val == 0) if val != "otherwise" else (arms_ == (1,))
+                if is_some or is_none:
+                    lits |= literals(formula(inner.a[1][0], prog), bool(is_some))
         if val == "otherwise":
             arms = tuple(v for v, _ in tj["arms"])
             lits.add((("atom", "switch_not", ds, arms), True))
